@@ -9,6 +9,9 @@ use std::net::TcpStream;
 use std::time::Duration;
 
 fn exchange(port: u16, host: Option<&str>, target: &str, src: Option<&str>, xff: Option<&str>, with_ct: bool, ws: bool) -> String {
+    // a connection that yields nothing is tried again twice (a server that drops the client deliberately does so every
+    // time and at once; on a loaded machine a single attempt can also run into the 3 s read timeout)
+    let mut empties = 0;
     for _ in 0..50 {
         let conn = match src {
             // from a chosen loopback source address (blacklist cases)
@@ -55,6 +58,10 @@ fn exchange(port: u16, host: Option<&str>, target: &str, src: Option<&str>, xff:
                 }
             }
             if buf.is_empty() {
+                empties += 1;
+                if empties < 3 {
+                    continue;
+                }
                 return "noresp".to_string();
             }
             let text = String::from_utf8_lossy(&buf).to_string();
